@@ -129,8 +129,11 @@ impl<S: Storage> Builder<S> {
         // recursively build for all views
         let mut views = HashMap::new();
         for node in plan.as_ref() {
+            // (the table may have been dropped by another session since the plan was bound:
+            // the scan executor reports that as an error)
             if let Expr::Table(tid) = node
-                && let Some(query) = optimizer.catalog().get_table(tid).unwrap().query()
+                && let Some(table) = optimizer.catalog().get_table(tid)
+                && let Some(query) = table.query()
             {
                 let builder = Self::new(optimizer.clone(), storage.clone(), query);
                 let subscriber = builder.build_subscriber();
